@@ -40,6 +40,7 @@ var kernelList = []kernelSpec{
 	{"x/subaccount/types", "AccountSummary", "Withdraw"},
 	{"x/subaccount/types", "AccountSummary", "WithdrawableUnlockedBalance"},
 	{"x/subaccount/types", "AccountSummary", "WithdrawableBalance"},
+	{"x/subaccount/types", "SubAccWagerTicketPayload", "Validate"},
 	{"x/orderbook/types", "ParticipationExposure", "CalculateMaxLoss"},
 	{"x/orderbook/types", "ParticipationExposure", "SetCurrentRound"},
 	{"x/orderbook/types", "OrderBookParticipation", "CalculateMaxLoss"},
@@ -119,7 +120,9 @@ var kernelList = []kernelSpec{
 
 // structs that only occur as parameters
 // functions taken to succeed: what they check is not modelled (denomination strings)
-var assumeOK = []kernelSpec{{"x/mint/types", "", "validateMintDenom"}}
+// (*MsgWager).ValidateBasic at the end of the subaccount wager payload's Validate re-checks the inner message, which the handler has
+// already passed through PrepareBetObject (model: wager_prepare, tied by the correspondence runs)
+var assumeOK = []kernelSpec{{"x/mint/types", "", "validateMintDenom"}, {"x/bet/types", "MsgWager", "ValidateBasic"}}
 
 var extraStructs = []kernelSpec{{"x/ovm/types", "ProposalVotePayload", ""}, {"x/ovm/types", "MsgVotePubkeysChangeRequest", ""}, {"x/bet/types", "Constraints", ""}, {"x/ovm/types", "PubkeysChangeProposalPayload", ""}, {"x/mint/types", "Phase", ""}, {"x/ovm/types", "Vote", ""}, {"x/market/types", "Odds", ""}}
 
@@ -1164,6 +1167,9 @@ func (c *fctx) call(e *ast.CallExpr) string {
 		if kind := mathType(c.info.TypeOf(f.X)); kind != "" {
 			return c.methodOnMath(kind, c.expr(f.X), f.Sel.Name, args)
 		}
+		if fn, ok := c.info.Uses[f.Sel].(*types.Func); ok && c.k.assume[fn] {
+			return "true"
+		}
 		// method of a whitelisted struct
 		if s := c.k.structOf(c.info.TypeOf(f.X)); s != "" {
 			// generated protobuf getter GetX(): the field X (of a non-nil receiver)
@@ -2039,6 +2045,16 @@ func analyseKernels(w *world) string {
 	}
 	for _, sp := range assumeOK {
 		if p := w.all[repoModule+"/"+sp.pkg]; p != nil {
+			if sp.recv != "" {
+				if obj := p.Types.Scope().Lookup(sp.recv); obj != nil {
+					if m, _, _ := types.LookupFieldOrMethod(types.NewPointer(obj.Type()), true, p.Types, sp.name); m != nil {
+						if fn, _ := m.(*types.Func); fn != nil {
+							k.assume[fn] = true
+						}
+					}
+				}
+				continue
+			}
 			if fn, _ := p.Types.Scope().Lookup(sp.name).(*types.Func); fn != nil {
 				k.assume[fn] = true
 			}
